@@ -135,7 +135,7 @@ PROPS['C02'] = dict(
          'caller-supplied buffer (64..4096 bytes at offset 0..7 of a heap block of exactly that size); one unit is built with '
          '-DSONIC_ADAPTIVE_MEMORYPOOL (every pool then starts with 1 KiB chunks and grows them - without it the adaptive policy '
          'starts saturated at 64 KiB). Histories: fresh; '
-         'valid-then-input; input twice; input-then-valid-then-serialise; input then move-assign; move-construct; swap. '
+         'valid-then-input; input twice; input-then-valid-then-serialise; input then move-assign; move-construct; swap; valid + ParseSchema + input twice. '
          'Oracle: ASan+LSan and a reduced UBSan set with heap fill bytes 0x0c/0x06/0x07/0xbe (an unconstructed node then looks '
          'like an owned string/object/array), tracking-allocator ledger (no foreign/double free, nothing live after '
          'destruction), production build under mallopt(M_PERTURB) with outcome (code, offset, Dump) required to be '
@@ -144,7 +144,7 @@ PROPS['C02'] = dict(
          'Non-trivial: invalid with a container open or >1 byte consumed, or valid with depth >= 2.',
     min_evaluations=dict(quick=20000, thorough=500000),
     required_classes=['alloc:pool', 'alloc:freeing', 'alloc:tracking', 'alloc:adaptive-pool', 'alloc:pool-in-user-buffer', 'user-buffer:misaligned', 'wide:>=2047-children', 'text>64KiB', 'invalid@depth4+', 'valid',
-                      'history:0', 'history:6'],
+                      'history:0', 'history:6', 'history:7'],
     assumptions=['MemorySanitizer is unusable here (uninstrumented libstdc++): acting on uninitialised values is detected '
                  'through its influence on behaviour under heap-fill perturbation, not as every uninitialised read'],
 )
@@ -174,12 +174,12 @@ PROPS['C05'] = dict(
          'bytes >= 0x80, or any unescaped-legal byte; one case in three has a valid escape before the feature (post-escape '
          'decoder path); AVX2 and SSE (-march=westmere) sanitizer builds; contexts: root value, array element, '
          'object key+value, on-demand key, a member name the on-demand scan has to step over before a longer wanted key, UpdateLazy key, and the decoding kernel called directly on a padded buffer (in the '
-         'runtime-dispatch build: the dispatcher, the SSE clone and the AVX2 clone); plus libFuzzer over literal bodies. Oracle: refjson.unescape '
+         'runtime-dispatch build: the dispatcher, the SSE clone and the AVX2 clone); 1 valid case in 100 also looks escaped keys up on four threads at once; plus libFuzzer over literal bodies. Oracle: refjson.unescape '
          '(accept/reject, decoded bytes, error class when the literal holds one fault kind). Non-trivial: invalid literal, '
          'or >= 16 bytes with an escape, or a control/high byte.',
     min_evaluations=dict(quick=200000, thorough=3000000),
     required_classes=['feature:short-escape', 'feature:u-pair', 'feature:high-surrogate-unpaired', 'feature:low-surrogate-first',
-                      'feature:raw-control', 'feature:escape-run', 'ctx:key', 'ctx:ondemand-key', 'ctx:updatelazy-key', 'ctx:kernel', 'ctx:ondemand-scan-over-key',
+                      'feature:raw-control', 'feature:escape-run', 'ctx:key', 'ctx:ondemand-key', 'ctx:updatelazy-key', 'ctx:kernel', 'ctx:ondemand-scan-over-key', 'four-threads',
                       'escape-before-feature+high-bytes'],
 )
 
@@ -192,6 +192,7 @@ PROPS['C04'] = dict(
         U(c04, 'prng', 400000, 12000000, wq=4, wt=8, label='c04-asan'),
         U(c04p, 'prng', 1000000, 40000000, wq=3, wt=6, label='c04-prod'),
         U(c04, 'rc', 5000, 100000, wq=2, wt=2, label='c04-rc'),
+        U(c04p, 'prng', 400000, 12000000, wq=2, wt=3, label='c04-daz-ftz', args=['--daz']),
         F(fz04, 15, 600, wq=2, wt=2, label='fz_number', field='num', dict='fuzz/number.dict', max_len=400),
     ],
     harness_alias={'fz_number': 'c04_numbers'},
@@ -202,7 +203,7 @@ PROPS['C04'] = dict(
          'the digit string just below it; totals 790..812 dense); mantissas of 20..2000 digits followed by exponent/fraction/nothing; zeros in every spelling; '
          'overflow/underflow boundaries - each spelled scientific / integer-mantissa / positional with e|E and +, at the root, '
          'in an array, as an object value, at pad 0..40; a quarter of the cases enter through ParseSchema (into an existing member / an '
-         'existing scalar root) or ParseOnDemand instead of Parse. Oracle: integer rule of the statement, else glibc strtod bits on the '
+         'existing scalar root) or ParseOnDemand instead of Parse; one unit parses with MXCSR.DAZ|FTZ set. Oracle: integer rule of the statement, else glibc strtod bits on the '
          'identical spelling, strtod==inf => kParseErrorInfinity. Non-trivial: more than 15 significant digits or not a plain '
          'integer. distinct = distinct pick sequences.',
     min_evaluations=dict(quick=500000, thorough=10000000),
@@ -230,8 +231,8 @@ PROPS['C07'] = dict(
          'fraction or exponent; length <= 32 and no write outside a 33-byte block (ASan heap block / canary); no decimal with '
          'one digit fewer reads back (nearest candidate and both neighbours, via glibc %.*e); out is the closest candidate of '
          'its length that reads back (exact expansion consulted for ties and irregular intervals); Document::Parse(out) gives '
-         'the same bits; 1 case in 150 prints four doubles on four threads at once (3000 repetitions each, output must be what the '
-         'thread gets alone); one unit calls the printing routine with MXCSR.DAZ|FTZ set (its output must not depend on the caller\'s '
+         'the same bits; 1 case in 60 prints four doubles on four fresh threads at once (1200 repetitions each; thread 0 starts with the double '
+         'under test as the first value it ever prints; output must be what the main thread got); one unit calls the printing routine with MXCSR.DAZ|FTZ set (its output must not depend on the caller\'s '
          'floating-point environment); for a sample (a quarter of the 24/25-byte spellings, 1/64 of the rest) the double is serialised at the end of '
          'a document with every amount of space 18..48 bytes left in a 96-byte write buffer (ASan: first byte beyond the block). '
          'Non-trivial: not an integer below 2^53.',
@@ -350,7 +351,8 @@ PROPS['C10'] = dict(
          'INT_MAX / -1 / INT_MIN, index into object, key into array, any step into an empty container, steps below a scalar, '
          'a key equal to the raw (still escaped) spelling of a member name. '
          'Oracle: refjson.resolve on the generating value (first match); hit => kErrorNone, slice inside the input, '
-         'refjson.parse(slice) == resolved value, ParseOnDemand yields it; miss => error, empty slice, ParseOnDemand has a parse '
+         'refjson.parse(slice) == resolved value, ParseOnDemand yields it (fresh document, and a document that parsed the text / ran '
+         'ParseOnDemand / failed a parse before); miss => error, empty slice, ParseOnDemand has a parse '
          'error and a null document; DOM Parse+AtPointer agrees. Buffers: exact-size heap block (ASan) / page-end and '
          'page-start guard pages. evaluations counts (text,path) pairs as oracle sub-evaluations. Non-trivial: non-empty path.',
     min_evaluations=dict(quick=100000, thorough=2000000),
@@ -401,12 +403,14 @@ PROPS['C06'] = dict(
         F(fz06, 15, 600, wq=2, wt=2, label='fz_roundtrip', field='text', dict='fuzz/json.dict', seeds='fuzz/seeds/json'),
     ],
     harness_alias={'fz_roundtrip': 'c06_serialize'},
-    rule='cases: (document, write-buffer state). Documents: generated values (1..150 nodes, depth <= 8, empty containers anywhere, '
+    rule='cases: (document, write-buffer state). Documents: generated values (1..150 nodes, depth <= 8; 1 in 20 under 9..70 more levels '
+         'of one-child containers, empty containers anywhere, '
          'single scalar roots, duplicate keys, strings of arbitrary bytes incl. NUL/0x7f/>=0x80, boundary integers, every double '
          'class) built by parsing a rendered text or through the mutation API (copied or borrowed strings; borrowed strings and '
          'keys also packed against the end of a mapped page followed by a PROT_NONE page), pool and freeing '
          'allocators; 1/12 of the cases plant +-inf or a NaN (with payload) at a random node. Write buffers: fresh, capacity '
-         '0/1/2/7/8/63/64/255/256/4096, reused after a smaller/larger document, moved-from-and-reassigned. Oracle: Serialize == '
+         '0/1/2/7/8/63/64/255/256/4096, reused after a smaller/larger document, moved-from-and-reassigned, and a used buffer whose contents were moved away (by '
+         'move-assignment / move-construction) before it is used again. Oracle: Serialize == '
          'kErrorNone; refjson accepts the output and parses it to the generating value (kinds, bits, order, duplicates); '
          'Dump()==output, Size()==strlen, NUL terminator; library parse-back equals (walk and ==); re-serialisation and a second '
          'serialisation into the same buffer are byte-identical; last child sub-node Dump() correct; non-finite => '
@@ -414,7 +418,7 @@ PROPS['C06'] = dict(
          'left in a 96-byte write buffer. Non-trivial: depth >= 2, or an escape in the output, or long output, or a non-fresh buffer.',
     min_evaluations=dict(quick=50000, thorough=1500000),
     required_classes=['built:parse', 'built:mutation-api', 'alloc:freeing', 'alloc:pool', 'non-finite', 'wb:reused', 'wb:capacity/0',
-                      'wb:capacity/1', 'wb:moved/0', 'strings:borrowed-at-page-end', 'write-buffer-edge-sweep'],
+                      'wb:capacity/1', 'wb:moved/0', 'wb:moved-from(assign)', 'wb:moved-from(construct)', 'depth>=17(one-child wrappers)', 'strings:borrowed-at-page-end', 'write-buffer-edge-sweep'],
 )
 
 c12 = B('c12_mutation', 'c12_mutation.cpp', 'asan')
@@ -451,11 +455,14 @@ PROPS['C13'] = dict(
     units=[
         U(c13, 'rc', 1200, 60000, wq=6, wt=8, label='c13-rc'),
         U(c13, 'prng', 5000, 400000, wq=8, wt=8, label='c13-prng', asan_options=FILL % 0x0c),
+        U(B('c13_ownership_pool', 'c12_mutation.cpp', 'asan', defines=['-DVF_C13', '-DVF_C13_POOL'], harness='c13_ownership'), 'prng', 4000, 300000, wq=3, wt=4,
+          label='c13-pool-documents'),
         F(B('fz_c13_ops', 'c12_mutation.cpp', 'fuzz', defines=['-DVF_C13']), 15, 600, wq=2, wt=3, label='fz_c13_ops', max_len=2048),
     ],
     rule='cases: the C12 operation language on documents using a tracking allocator (kNeedFree, every Realloc moves, freed blocks '
          'poisoned), extended with document operations (1 step in 5): move-construct, move-assign, Swap, Parse of valid and '
-         'mutated texts, ParseOnDemand (hit and miss), ParseSchema of valid and invalid texts, destroy-and-recreate. Oracle: '
+         'mutated texts, ParseOnDemand (hit and miss), ParseSchema of valid and invalid texts, destroy-and-recreate; one unit runs the same language on pool documents of which '
+         'every other one is bound to a pool the caller owns (ASan watches the chunks). Oracle: '
          'ledger after every step (no free of a block the allocator does not own = foreign/double free), model comparison after '
          'every step (a stale or shared block shows as a wrong value: copies are mutated/destroyed independently), nothing live '
          'in the ledger after the last owner is destroyed, ASan (use after free) and LSan (parser stacks) silent. Non-trivial: '
@@ -534,7 +541,7 @@ PROPS['C18'] = dict(
          'element added/removed/two different elements swapped, member dropped/added, key renamed to same length/longer/prefix), '
          'two (three) construction histories out of 12: parse compact, parse with heavy whitespace, mutation-API build, build '
          'with members permuted at every level, CopyFrom (source destroyed), parse of Dump, nodes that previously held another '
-         'kind, extra capacity (Reserve + add/remove), lookup maps on every object, lookup maps created before the members are added (keys passed through a scratch buffer '
+         'kind (incl. nulls left behind by moving a value away), extra capacity (Reserve + add/remove), lookup maps on every object, lookup maps created before the members are added (keys passed through a scratch buffer '
          'that is overwritten afterwards), the same with a member <key>_ added and removed again in the slot of the last member, borrowed constant strings; pool and freeing '
          'allocators incl. cross-type comparison; sanitizer build and production build (g++ -O2: the in-page fast paths of the key '
          'comparison are live only there). Oracle: (a==b) == model equality (objects as maps, numbers by kind and bits); '
@@ -586,13 +593,15 @@ c17l = B('c17_threads_locked', 'c17_threads.cpp', 'tsan', defines=['-DSONIC_LOCK
 PROPS['C17'] = dict(
     title='Independent documents and shared read-only documents are free of data races',
     units=[
-        U(c17, 'prng', 500, 20000, wq=4, wt=6, label='c17-tsan', replay_reps=20, replay_timeout=120, cap_s=dict(quick=45, thorough=900)),
-        U(c17, 'rc', 200, 5000, wq=2, wt=2, label='c17-tsan-rc', replay_reps=20, replay_timeout=120, cap_s=dict(quick=45, thorough=900)),
-        U(c17l, 'prng', 300, 10000, wq=4, wt=6, label='c17-tsan-locked', replay_reps=20, replay_timeout=200, cap_s=dict(quick=45, thorough=900), args=['--case-timeout', '60']),
-        U(B('c17_threads_locked_adaptive', 'c17_threads.cpp', 'tsan', defines=['-DSONIC_LOCKED_ALLOCATOR', '-DSONIC_ADAPTIVE_MEMORYPOOL'], harness='c17_threads_locked'), 'prng', 300, 10000, wq=3, wt=4,
+        U(c17, 'prng', 500, 20000, wq=3, wt=6, label='c17-tsan', replay_reps=20, replay_timeout=120, cap_s=dict(quick=45, thorough=900)),
+        U(c17, 'rc', 200, 5000, wq=1, wt=2, label='c17-tsan-rc', replay_reps=20, replay_timeout=120, cap_s=dict(quick=45, thorough=900)),
+        U(c17l, 'prng', 300, 10000, wq=3, wt=6, label='c17-tsan-locked', replay_reps=20, replay_timeout=200, cap_s=dict(quick=45, thorough=900), args=['--case-timeout', '60']),
+        U(B('c17_threads_locked_adaptive', 'c17_threads.cpp', 'tsan', defines=['-DSONIC_LOCKED_ALLOCATOR', '-DSONIC_ADAPTIVE_MEMORYPOOL'], harness='c17_threads_locked'), 'prng', 300, 10000, wq=2, wt=4,
           label='c17-tsan-locked-adaptive', replay_reps=20, replay_timeout=200, cap_s=dict(quick=45, thorough=900), args=['--case-timeout', '60']),
-        U(B('c17_threads', 'c17_threads.cpp', 'wtsan'), 'prng', 300, 12000, wq=3, wt=4, label='c17-tsan-sse', replay_reps=20, replay_timeout=120, cap_s=dict(quick=45, thorough=900)),
-        U(B('c17_threads', 'c17_threads.cpp', 'gtsan'), 'prng', 300, 12000, wq=3, wt=4, label='c17-tsan-gcc', replay_reps=20, replay_timeout=120, cap_s=dict(quick=45, thorough=900)),
+        U(B('c17_threads_locked_nopause', 'c17_threads.cpp', 'tsan', defines=['-DSONIC_LOCKED_ALLOCATOR', '-DSONIC_SPINLOCK_NO_PAUSE'], harness='c17_threads_locked'), 'prng', 300, 10000, wq=2, wt=4,
+          label='c17-tsan-locked-nopause', replay_reps=20, replay_timeout=200, cap_s=dict(quick=45, thorough=900), args=['--case-timeout', '60']),
+        U(B('c17_threads', 'c17_threads.cpp', 'wtsan'), 'prng', 300, 12000, wq=2, wt=4, label='c17-tsan-sse', replay_reps=20, replay_timeout=120, cap_s=dict(quick=45, thorough=900)),
+        U(B('c17_threads', 'c17_threads.cpp', 'gtsan'), 'prng', 300, 12000, wq=2, wt=4, label='c17-tsan-gcc', replay_reps=20, replay_timeout=120, cap_s=dict(quick=45, thorough=900)),
     ],
     rule='cases: thread scripts for 2..8 threads, generated on the main thread and then executed 4x behind a start barrier under '
          'ThreadSanitizer. (A) every thread owns its documents: Parse of valid and mutated texts (pool and freeing allocator), '
@@ -601,7 +610,7 @@ PROPS['C17'] = dict(
          'start (with or without lookup maps, pool or freeing allocator) and then only const operations from all threads: type '
          'tests, getters, iteration, FindMember (view and pointer+length), HasMember, operator[] with existing and MISSING keys, '
          'AtPointer, Dump, Serialize into a thread-local buffer, == against a thread-local copy. (C, second binary built with '
-         '-DSONIC_LOCKED_ALLOCATOR, third with -DSONIC_ADAPTIVE_MEMORYPOOL in addition) all threads Malloc/Realloc from one shared pool and parse on documents bound to it. (D) half of the '
+         '-DSONIC_LOCKED_ALLOCATOR, third with -DSONIC_ADAPTIVE_MEMORYPOOL in addition, fourth with -DSONIC_SPINLOCK_NO_PAUSE) all threads Malloc/Realloc from one shared pool and parse on documents bound to it. (D) half of the '
          'threads serialise documents of their own whose strings and keys borrow name bytes of a shared record array while the other '
          'half write the counters that lie directly behind those names. Oracle: '
          'ThreadSanitizer silent (halt_on_error); every thread result equals the single-threaded result of the same script; in '
